@@ -285,12 +285,16 @@ class Opaque:
 class FakeFile:
     """what the analysed code writes to files is kept in World.files (nothing touches the file system)"""
 
-    def __init__(self, world, name):
+    def __init__(self, world, name, reset=True):
         self.world, self.name = world, name
-        world.files[name] = ""
+        if reset or name not in world.files:
+            world.files[name] = ""
 
     def write(self, s):
         self.world.files[self.name] += s
+
+    def read(self):
+        return self.world.files[self.name]
 
     def close(self):
         pass
@@ -1170,7 +1174,13 @@ class Interp:
         if name == "inspect.isclass":
             return isinstance(args[0], ClassV)
         if name == "open":
-            return FakeFile(self.mod.world, str(args[0]))
+            mode = args[1] if len(args) > 1 else kw.get("mode", "r")
+            fname = str(args[0])
+            if "w" in mode or "a" in mode:
+                return FakeFile(self.mod.world, fname, reset="w" in mode)
+            if fname not in self.mod.world.files:
+                raise PyRaise("FileNotFoundError", None)
+            return FakeFile(self.mod.world, fname, reset=False)
         if name == "dir":
             o = args[0]
             if isinstance(o, tuple) and o[0] == "module":
